@@ -109,3 +109,15 @@ Definition gen_secret (key : list N) (serial : Z) (deflt : Z) (now : Z) (g : gre
   end.
 
 End Token.
+
+(* Init: len(config.Key) >= sha256.Size and config.ExpireIn > 0 *)
+Definition token_init_ok (key : list N) (expire_in : Z) : bool :=
+  (32 <=? length key)%nat && (0 <? expire_in)%Z.
+
+(* harness helper: the expiry instant GenSecret returned lies between the values
+   computed from clock readings taken before and after the call *)
+Definition gen_bracket_ok (deflt t0 t1 : Z) (g : grec) (exp : Z) : bool :=
+  match effective_lifetime deflt g with
+  | None => false
+  | Some lt => (round_ms (t0 + lt) <=? exp)%Z && (exp <=? round_ms (t1 + lt))%Z
+  end.
